@@ -1,10 +1,11 @@
 #!/bin/bash
 # usage: lib/harmless_sweep.sh [repo]  - applies every seeded/harmless-*/patch.diff to a scratch worktree of <repo>
-# and runs the 20 quick checks on it; prints the lines that are not "exit=0 0 viol" (nothing = no alarm)
+# and runs the 20 quick checks on it; prints the lines that are not "exit=0 0 viol" (nothing = no alarm).  ONLY="name name" restricts it.
 cd "$(dirname "$(readlink -f "$0")")/.."
 REPO=${1:-/repo}
 for d in seeded/harmless-*/; do
   name=$(basename $d)
+  if [ -n "${ONLY:-}" ]; then case " $ONLY " in *" $name "*) ;; *) continue;; esac; fi
   wt=/tmp/hsweep-$name
   rm -rf $wt; git -C $REPO worktree prune
   git -C $REPO worktree add -q --detach $wt HEAD || { echo "$name worktree-failed"; continue; }
